@@ -79,10 +79,10 @@ SPEC = dict(
     search_n={"quick": 3000, "thorough": 20000},
     nontrivial=nontrivial,
     histogram=histogram,
-    rule="Proof: 38 theorems of coq/maxi/C07.v + 6 of coq/maxi/C07Source.v, all inputs (no bound on rows): over an "
+    rule="Proof: 52 theorems of coq/maxi/C07.v + 10 of coq/maxi/C07Source.v, all inputs (no bound on rows): over an "
          "abstract element type with a total preorder on the admissible values — generic max / argmax / threshold "
          "meet max_spec / argmax_spec (designated cell in range and >= every cell) / threshold_spec (NoDup, "
-         "membership iff cell >= t), None exactly on the matrix without rows; argmax_f32_avx2, max_f32_avx2 "
+         "membership iff cell >= t), None exactly on the matrix without rows. Reused buffers: a StripedScores is modelled as backing vector + row count + max_index (MaxiBuffer.v); for every sequence of StripedScores::resize / DenseMatrix::resize (to more or fewer rows) and cell writes from the empty buffer, matrix().iter() yields exactly rows 0..rows(), so the default max / argmax / threshold (which walk iter()), offset() and Index answer as on a fresh matrix made of the logical rows and meet max_spec / argmax_spec / threshold_spec of those rows (C07_history_independent, C07_history_answers_meet_spec, _f32, _u8, C07_history_same_logical, C07_history_shrink_then_grow), on every arm of the dispatcher (C07_history_dispatch_f32/_u8, C07_history_all_arms_f32/_u8); a resize that only grows the vector is refuted (C07_resize_grow_only_refuted). Kernels: argmax_f32_avx2, max_f32_avx2 "
          "(repaired: starts from the first row), argmax_sse2 (any multiple of 16 columns) + Pipeline<Sse2>::max, "
          "argmax_u8_avx2 (repaired column order), max_u8_avx2 each return Ok of an answer meeting the same "
          "specification; every arm of the f32 and u8 dispatcher, the explicit guards (Panic 20/21), agreement of "
@@ -96,7 +96,11 @@ SPEC = dict(
          "the driver for PROPFAIL) is proved sound and complete (check_C07_sound / _complete, "
          "model_passes_C07), as is the end-to-end padding checker (check_padding_max_sound / _complete). C07Source.v: the dispatcher arm table, the Pipeline<Sse2/Avx2> overrides, the "
          "permute2x128 operands/immediates/store offsets of argmax_u8_avx2 and the load/store offsets of the "
-         "f32 kernels, re-read from the source on every run (translate/maxi_tables.py), are those of the model. "
+         "f32 kernels, the statements of DenseMatrix::resize / StripedScores::resize, the source of "
+         "dense::Iter::new, the outer loops of the default argmax / threshold (C07_source_buffer, C07_source_buffer_views), "
+         "the vector / reduction comparisons of the two f32 arg-max kernels and the block offsets of argmax_sse2 "
+         "(C07_source_compares), the Arm-host dispatcher tables (C07_source_armhost_tables), "
+         "re-read from the source on every run (translate/maxi_tables.py), are those of the model. "
          "Correspondence run — corpus: one unique maximum in every column x first/last row of all-negative f32 and "
          "of u8 matrices (1, 2, 5 rows) and of 16- and 48-column f32 matrices, maxima in rows >= 256 of 300/520-row matrices (row index wider than 8 "
          "bits) and a low/high-row tie, u8 matrices of 32769..65536 rows with maxima in rows >= 32768 (row index negative as i16) incl. ties with a low row, and the 65537-row guard case (Panic 21), all-equal / all -inf / all +inf / signed-zero matrices, no rows, max_index around "
@@ -113,7 +117,7 @@ SPEC = dict(
          "Pipeline::dispatch() under each forced arm, of StripedScores::{max,argmax,threshold} under each "
          "forced arm (+ scores[argmax]), and of linear Scores over the column-major cells; every answer is "
          "judged by the extracted Coq checker (PROPFAIL) and compared with the extracted kernel model "
-         "incl. exact arg-max coordinates, maximum bit pattern and the threshold list as a set (DIFF). Non-trivial: distinct (kind, matrix, "
+         "incl. exact arg-max coordinates, maximum bit pattern and the threshold list as a set (DIFF). 30 % of the generated matrix cases (<= 300 rows) run on a REUSED buffer: a history of 1-3 earlier states (mostly more rows than the final matrix, filled with values at / above the final maximum or equal to the threshold, +inf; also fewer or zero rows; DenseMatrix-level resize; score_rows_into of a built-in motif on generic / SSE2 / AVX2), then resize(R, mi) and a full or partial rewrite; the answers are judged against the logical rows computed by the extracted buffer model, rows() / iter().count() / content hashes of rows 0..rows() and of iter() are compared with it; 40 % of the end-to-end slot are Scanner-pattern cases (row ranges scored in turn into one buffer under each forced arm, f32 and discrete u8: max / argmax / scores[argmax] / threshold against the observed cells and the dispatcher models). Corpus: 21 history lines, 10 range lines, 7 signed-zero lines. Non-trivial: distinct (kind, matrix, "
          "threshold) with at least one row / distinct end-to-end (matrix, sequence).",
     trusted_base=[
         "Coq 8.16.1 kernel (coqc; coqchk in the thorough tier), vm_compute in the Examples and in the 32-lane "
@@ -123,11 +127,13 @@ SPEC = dict(
         "the two x + -inf lemmas mention F32.add and inherit Flocq's allow-listed Reals axioms)",
         "extraction: ExtrOcamlBasic only; OCaml 4.13.1",
         "hand-written OCaml driver ocaml/maxi/driver.ml (parsing, sorting of the reported threshold lists, "
-        "decoding offsets to coordinates, the valid-position list of the end-to-end cases, comparison)",
+        "decoding offsets to coordinates, the valid-position list of the end-to-end cases, comparison, the history parser (ops of "
+        "`h=`), the row hash)",
         "Rust harness harness/src/bin/maxi.rs (builds StripedScores through the public API, catch_unwind, "
         "verif-hooks force_backend)",
         "translator translate/maxi_tables.py (regex / brace-matching reader of dispatch.rs, pli/mod.rs, avx2.rs, "
-        "sse2.rs: match arms, overriding methods, wrapper -> kernel, permute2x128 immediates, load/store offsets)",
+        "sse2.rs, dense.rs, scores.rs: match arms, overriding methods, wrapper -> kernel, permute2x128 immediates, load/store offsets, "
+        "dense.rs / scores.rs struct fields and resize statements, Iter::new, default-scan loop headers, comparison predicates)",
         "modelled, not verified: lane-wise semantics of the AVX2/SSE2 intrinsics used by the five kernels "
         "(load, cmp_ps LE, cmpgt_epi16, sub_epi16, blendv, and/andnot/or select, max_ps, max_epu8, "
         "unpacklo/hi_epi8, permute2x128, storeu), Rust's Iterator::max_by/max_by_key/reduce and f32::max; "
@@ -143,5 +149,7 @@ SPEC = dict(
         "wildcard column -inf, no term and no partial sum of a score is NaN or +inf (checked on every case)",
         "not covered: NEON kernels (not compiled on this host); f32 matrices with more than 3000 rows are not "
         "executed (u8 matrices are, up to the 65536-row limit of argmax_u8_avx2 and its guard at 65537 rows)",
+        "score_rows_into steps of a history are not modelled (content unknown to the model): such cases rewrite every row "
+        "afterwards; stale rows with content below the final maximum and threshold are a tie-only (DIFF) signal",
     ],
 )
